@@ -637,3 +637,26 @@ EXTRA['C11'] += [(check_record_field_mapping, 'R11.8'), (check_pressure_relief, 
 EXTRA['C03'] += [(check_pressure_relief, 'R3.10'), (check_apply_always, 'R3.11')]
 EXTRA['C08'] += [(check_apply_always, 'R8.9'), (check_deliver_results, 'R8.10')]
 EXTRA['C18'] += [(check_response_payload, 'R18.36')]
+
+
+_CV = 'CONDVAR: every change of the state awaited through a Condition.wait_for predicate is followed by an unconditional notify_all on every normal path'
+KINDS = {
+    'C01': _CV + ' (Scheduler: workers are spawned when capacity frees); the stream rules of C19 (resume version) for "none processed twice"',
+    'C02': 'cross-wired dedup-key rule of C15 and record-location agreement of C16; KEYS: each record key is computed from / restored into the field of the same name',
+    'C03': 'cross-wired worker rules of C01 and sub-handler plumbing; pressure relief before the processor (a stale pressure flag suppresses the sleep-and-touch); '
+           'ALLEXITS: every completed non-DELETED cycle passes application.apply',
+    'C05': 'cross-wired key-agreement rule of C04 ("never handled before" = nothing under the storage\'s own keys) and worker version bookkeeping of C07',
+    'C06': 'cross-wired staged-termination rule set of C09 (stage parameters are per daemon)',
+    'C08': 'BOUNDARY: subresource discovery uses the "<name>/" prefix; ALLEXITS: apply() on every completed cycle; TABLE+ALLEXITS: handler results are delivered '
+           'into the patch after every execution',
+    'C11': 'cross-wired spawning-order table of C09; KEYS field mapping; pressure relief',
+    'C12': 'FRESH: no suspension point between a clock sample and its use in the throttling-deadline arithmetic; FLOW: the stored credentials are the object '
+           'that was compared with the invalidated ones',
+    'C13': _CV + ' (toggles); cross-wired terminate_redundancies and first-sight-flag rules',
+    'C15': 'cross-wired first-sight-flag rule (resume handlers are not mixed into later causes)',
+    'C16': 'cross-wired sub-handling protocol of C02 (every sub-handler record is referenced for purging); KEYS field mapping',
+    'C17': _CV + ' (the readiness gate opens when toggles are dropped)',
+    'C18': 'cross-wired value-list rule of C15 for admission causes; GUARD/FLOW on the response payload (warnings in order, patch + patchType)',
+    'C19': _CV + ' (toggles, backbone, containers); BOUNDARY: subresource discovery',
+    'C20': _CV + ' (Scheduler, backbone); cross-wired staged-termination rule set of C09 for the exit path',
+}
